@@ -17,10 +17,12 @@ From Coq Require Import List Arith Bool.
 From PA Require Import base.Npy.
 Import ListNotations.
 
-Inductive exc := EValue | EEOF | EAttr | EOther.
+(* EShape: arrays of incompatible shapes meet somewhere in numpy/scipy; the
+   class of the exception (ValueError, LinAlgError, ...) is not predicted *)
+Inductive exc := EValue | EEOF | EAttr | EOther | EShape.
 
 Definition exc_code (e : exc) : nat :=
-  match e with EValue => 1 | EEOF => 2 | EAttr => 3 | EOther => 4 end.
+  match e with EValue => 1 | EEOF => 2 | EAttr => 3 | EOther => 4 | EShape => 5 end.
 
 Definition load_exc (e : perr) : exc :=
   match e with PEOF => EEOF | PValue => EValue | PZip => EOther | PUnsupported => EOther end.
